@@ -168,6 +168,14 @@ func runGenesis(r *hx.R, n int, w *hx.W, _ []string) error {
 			erc20s = append(erc20s, tok)
 			in, _ := embeds.SmartContract_ERC20MinterWithMetadataUpdates.ABI.Pack("transfer", edFresh[i%2], big.NewInt(r.Range(1, 5000)))
 			try("evm:erc20transfer", func() error { _, e := ethTx(&tok, in, big.NewInt(0)); return e })
+			if r.Chance(3, 4) {
+				// a slot written in one committed tx and cleared in a later one: Commit persists it as an explicit zero value, which
+				// the export lists and the import has to reproduce
+				up, _ := embeds.SmartContract_ERC20MinterWithMetadataUpdates.ABI.Pack("approve", edFresh[(i+1)%2], big.NewInt(r.Range(1, 5000)))
+				down, _ := embeds.SmartContract_ERC20MinterWithMetadataUpdates.ABI.Pack("approve", edFresh[(i+1)%2], big.NewInt(0))
+				try("evm:erc20approve", func() error { _, e := ethTx(&tok, up, big.NewInt(0)); return e })
+				try("evm:erc20approve0", func() error { _, e := ethTx(&tok, down, big.NewInt(0)); return e })
+			}
 		}
 		// ---- funtoken
 		for _, d := range []string{"ulog", "ufoo"} {
